@@ -48,12 +48,18 @@ namespace c14
     {
         std::map<std::string, LD> mx;
         std::map<std::string, long> n;
+        std::map<std::string, std::string> where;
+        const std::string *cur{nullptr};   // repro text of the pair being observed
         void see(const std::string &k, LD v)
         {
             LD a = fabsl(v);
             auto it = mx.find(k);
             if (it == mx.end() || a > it->second)
+            {
                 mx[k] = a;
+                if (cur)
+                    where[k] = *cur;
+            }
             ++n[k];
         }
     };
@@ -246,6 +252,8 @@ namespace c14
                 ++qposHit[std::to_string(bf.qa) + "," + std::to_string(bf.qb)];
             for (int k : isegs)
                 ++icase[std::string(sym ? "sym:" : "dub:") + (lw >= 0 ? DWORD_NAME[lw] : "?") + (rv ? ":rev:" : ":fwd:") + std::to_string(k)];
+            std::string rp = e["repro"];
+            stat.cur = &rp;
             if (cv.finite)
             {
                 std::string tag = std::string(sym ? "sym." : "dub.") + (interior ? "int." : "bnd.");
@@ -263,7 +271,10 @@ namespace c14
                 stat.see(tag + "endYaw", endYaw);
                 stat.see(tag + "env", (hi - lo) * rho / n);
                 for (int k = 1; k <= 7; ++k)
-                    stat.see(tag + "prefix", (LD)pre[k - 1] / UNIT - (LD)k / 8 * rep / n);
+                {
+                    LD df = (LD)pre[k - 1] / UNIT - (LD)k / 8 * rep / n;
+                    stat.see(tag + (df < 0 ? "prefix-shorter" : "prefix-longer"), df);
+                }
                 if (sym)
                     stat.see(tag + "sym", (rep - repRev) / n);
                 if (rep < cf.d * rho)
@@ -398,6 +409,8 @@ namespace c14
                 ++bndSide[meta.bnd + (meta.off < 0 ? ":-" : ":+")];
             for (int k : isegs)
                 ++icase["rs:" + std::to_string(row) + ":" + std::to_string(k)];
+            std::string rp = e["repro"];
+            stat.cur = &rp;
             if (cv.finite)
             {
                 std::string tag = std::string("rs.") + (interior ? "int." : "bnd.");
@@ -407,7 +420,10 @@ namespace c14
                 stat.see(tag + "endPos", endPos / n);
                 stat.see(tag + "endYaw", endYaw);
                 for (int k = 1; k <= 7; ++k)
-                    stat.see(tag + "prefix", (LD)pre[k - 1] / UNIT - (LD)k / 8 * rep / n);
+                {
+                    LD df = (LD)pre[k - 1] / UNIT - (LD)k / 8 * rep / n;
+                    stat.see(tag + (df < 0 ? "prefix-shorter" : "prefix-longer"), df);
+                }
                 stat.see(tag + "sym", (rep - repRev) / n);
                 if (rep > dubF)
                     stat.see(tag + "above-dubF", (rep - dubF) / n);
